@@ -78,6 +78,24 @@ Proof. rewrite (mmul_msub_l K FL p1 p1 p2). rewrite (mmul_I_l K FL) by exact wfC
   rewrite <- (mmul_assoc K FL 1 p2 1 p2). rewrite Hv. rewrite (mmul_I_l K FL) by apply wf_mH.
   mat_unfold. apply tab_ext. intros i j Hi Hj. get_simpl. ring. Qed.
 
+(* ---- variance explained by one mode: the residual X (I - u u^H) has squared norm ||X||^2 - ||X u||^2 for every unit vector u *)
+Lemma P1_idem : mmul p1 p1 p1 P1 P1 = P1.
+Proof. rewrite (mmul_msub_l K FL p1 p1 p1). rewrite (mmul_I_l K FL) by apply wf_msub.
+  rewrite (mmul_msub_r K FL p1 p1 p1). rewrite (mmul_I_r K FL) by apply wf_mmul.
+  rewrite (mmul_assoc K FL p1 1 p1 p1). rewrite <- (mmul_assoc K FL 1 p1 1 p1). rewrite Hu. rewrite (mmul_I_l K FL) by apply wf_mH.
+  mat_unfold. apply tab_ext. intros i j Hi Hj. get_simpl. ring. Qed.
+
+Lemma resid_frob2 : frob2 n p1 (mode_resid n p1 X u) = frob2 n p1 X - frob2 n 1 (mode_scores n p1 X u).
+Proof. rewrite resid_is_projection_X. rewrite !(frob2_trace K).
+  rewrite (mH_mmul K FL n p1 p1). rewrite P1_herm. rewrite (mmul_assoc K FL n p1 p1 n). rewrite <- (mmul_assoc K FL p1 p1 p1 n). rewrite P1_idem.
+  rewrite (mmul_msub_l K FL p1 p1 n). rewrite (mmul_I_l K FL) by apply wf_mH. rewrite (mmul_msub_r K FL n p1 n).
+  rewrite (trace_msub K FL). f_equal.
+  unfold mode_scores. rewrite (mH_mmul K FL n p1 1). rewrite (mmul_assoc K FL n p1 1 n). rewrite (mmul_assoc K FL p1 1 p1 n). reflexivity. Qed.
+
+Theorem fve_src_is_score_norm_over_total : frob2 n p1 X <> 0 ->
+  fve_src K n p1 X u = fdiv K (frob2 n 1 (mode_scores n p1 X u)) (frob2 n p1 X).
+Proof. intros Hne. unfold fve_src. fold (mode_resid n p1 X u). rewrite resid_frob2. field. exact Hne. Qed.
+
 (* ---- the squared norm of the deflated matrix *)
 Lemma sum4 m (f g h k : nat -> F) a b d :
   sum K m (fun j => f j - a * g j - b * h j + d * k j) = sum K m f - a * sum K m g - b * sum K m h + d * sum K m k.
